@@ -174,6 +174,12 @@ func FuncBuilder(env *Zlisp, name string,
 		nargs = len(argsyms) - 1
 	}
 
+	// as in buildSexpFun: the function is known by its name while its body is
+	// compiled, so that a self tail call sees which of its parameters are lazy.
+	sfun := gen.env.MakeFunction(gen.funcname, nargs, varargs, nil, orig)
+	sfun.SetFormalSymbols(argsyms)
+	gen.knownFunctions[symN.number] = sfun
+
 	//VPrintf("\n in buildSexpFun(): DumpFunction just before %v args go onto stack\n", len(argsyms))
 	if Working {
 		DumpFunction(ZlispFunction(gen.instructions), -1)
@@ -197,10 +203,7 @@ func FuncBuilder(env *Zlisp, name string,
 	gen.AddInstruction(RemoveScopeInstr{})
 	gen.AddInstruction(ReturnInstr{nil}) // nil is the error returned
 
-	newfunc := ZlispFunction(gen.instructions)
-	sfun := gen.env.MakeFunction(gen.funcname, nargs,
-		varargs, newfunc, orig)
-	sfun.SetFormalSymbols(argsyms)
+	sfun.fun = ZlispFunction(gen.instructions)
 	sfun.inputTypes = inHash
 	sfun.returnTypes = retHash
 
